@@ -260,8 +260,8 @@ def gen_func(rng, d, go, clean=False):
     params = [(rng.choice(["x", "y", "z", "p_1", "`a b`", "`let`", "`true`", "`*`"]), rng.choice(TYPES + HOSTILE_TYPES) if rng.random() < 0.3 else None) for _ in range(rng.randint(0, 2))]
     # default values: atoms, and (since commit 95d15ad repaired them) calls, lambdas and aliased expressions
     named = [(rng.choice(["k", "w"]), go(rng.choice([0, 0, 1, 1]))) for _ in range(rng.randint(0, 1))]
-    if not clean and named and rng.random() < 0.3:
-        named = [(n + " <%s>" % rng.choice(TYPES[:5]), dflt) for n, dflt in named]     # open finding C14-named-param-type
+    if named and rng.random() < 0.3:
+        named = [(n + " <%s>" % rng.choice(TYPES[:5]), dflt) for n, dflt in named]     # (repaired by commit 212f897)
     if not params and not named:
         params = [("x", None)]
     ret = rng.choice(TYPES) if rng.random() < 0.2 else None
